@@ -191,7 +191,7 @@ func Run(tier string) int {
 	r.Assume("independent tokenizer ref/pdfsyn (content mode) written from ISO 32000-2 7.2/7.3/7.8.2/8.9.7",
 		"Figure 9 automaton written from ISO 32000-1 Figure 9, Table 51 and 14.6.1; q/Q inside text objects accepted for PDF 2.0 (the library's reading), nothing demanded about q/Q relative to marked content",
 		"inline image data under an ASCII filter (first filter AHx/A85) is compared modulo white space (8.9.7 lets any white space follow ID there)",
-		"operands are direct objects of the native types without references; inline image data <= 600 bytes (reader limit 4096)",
+		"operands are direct objects of the native types without references; inline image data <= 600 bytes, plus the lengths 4080..4096 at the reader limit of 4096 when the dictionary states /L",
 		"BFS state key = State.VerifKey (object state, nesting stack, usable/set bits, every graphics-state value a Builder setter compares with, the same for every saved q level) + automaton state; coordinates, matrices and resource names do not decide acceptance")
 
 	if s := selfTest(); s != "" {
@@ -593,6 +593,16 @@ func (rn *runner) images() {
 			data = append(data, append(bytes.Repeat([]byte{'a'}, k), tail...))
 		}
 	}
+	// around the reader's limit on inline image data (4096 bytes, the
+	// specification's recommendation): every length up to the limit itself
+	// must survive when the dictionary states the length (PDF 2.0 /L)
+	nLimit := len(data)
+	for k := 4080; k <= 4096; k++ {
+		for _, tail := range []string{"a", "\n", "I"} {
+			data = append(data, append(bytes.Repeat([]byte{'a'}, k-1), tail...))
+		}
+	}
+	r.Dim("image_data_lengths_at_reader_limit", "4080..4096 x last byte {a, LF, I}; dictionary variants with L=present")
 	r.Dim("image_data_alphabet", "E I LF CR SP a NUL")
 	r.Dim("image_data_max_len", maxLen)
 	r.Dim("image_data_strings_exhaustive", nAll)
@@ -633,6 +643,9 @@ func (rn *runner) images() {
 		}
 		d := data[i]
 		for _, v := range core {
+			if i >= nLimit && (!strings.Contains(v.desc, "L=present") || len(v.data(d)) > 4096) {
+				continue // beyond the reader's documented limit (with the end-of-data marker of an ASCII filter)
+			}
 			for c := 0; c < contexts; c++ {
 				d := v.data(d)
 				im := imgOp(v.mk(len(d)), d)
@@ -650,7 +663,7 @@ func (rn *runner) images() {
 				rn.one("image", ops, imgOpts)
 			}
 		}
-		if len(data[i]) <= 3 || i >= nAll {
+		if len(data[i]) <= 3 || (i >= nAll && i < nLimit) {
 			for _, v := range all {
 				d := v.data(d)
 				rn.one("image-dict", []content.Operator{op("cm", pdf.Integer(1), pdf.Integer(0), pdf.Integer(0), pdf.Integer(1), pdf.Integer(0), pdf.Integer(0)),
